@@ -63,7 +63,7 @@ example : IsCommentLine { delim := [0x3d], comment := [0x23, 0x3b] } [0x23, 0x6f
 
 /-! ### inserting or deleting comment lines (second sentence of C05)
 
-Documents are those of the conventional grammar (`Econf/Grammar.lean`, delimiter class "non-blank");
+Documents are those of the conventional grammar (`Econf/Grammar.lean`, every delimiter class of `CfgWF`);
 the inserted block is any list of comment-line and blank-line items – a comment line is an
 indentation, a comment character and **any** text without NUL and line break (further comment
 characters, delimiters, quotes, brackets included: `Item.WF` asks for `texts text` only) – and the
